@@ -40,7 +40,7 @@ func init() {
 		Shards:   shards(8, 16),
 		Timeout:  timeouts(4*time.Minute, 40*time.Minute),
 		MinEvals: 200,
-		Required: []string{"field:walk", "field:create", "field:rename", "root:remove", "root:rename", "root:remove-emptied", "sentinel_snapshots_compared", "followups_after_hostile_rename", "requests_refused", "requests_accepted"},
+		Required: []string{"field:walk", "field:create", "field:rename", "root:remove", "root:rename", "root:remove-emptied", "sentinel_snapshots_compared", "followups_after_hostile_rename", "requests_refused", "requests_accepted", "vanished_cwd_probes"},
 		Run:      runC15,
 	})
 }
@@ -415,6 +415,8 @@ func runC15(w *mon.W) {
 		}
 		os.RemoveAll(env.base)
 	}
+	// ---- a server constructed with a relative root while the working directory has vanished
+	c15VanishedCwd(w)
 	// ---- traced half: one traced server per shard
 	c15Traced(w, w.Scale(60, 4000))
 }
@@ -636,4 +638,51 @@ func max(a, b int) int {
 		return a
 	}
 	return b
+}
+
+// c15VanishedCwd constructs the server with a RELATIVE export root at a moment when the
+// process's working directory no longer exists (so the root cannot be made absolute), and
+// then probes — read-only — whether the session reaches host objects outside any export:
+// the host's "/" itself, or the sentinel SECRET by its absolute path.
+func c15VanishedCwd(w *mon.W) {
+	env, err := newC15Env(w.Dir, fmt.Sprintf("cwd%d", w.Shard))
+	if err != nil {
+		return
+	}
+	defer os.RemoveAll(env.base)
+	old, err := os.Getwd()
+	if err != nil {
+		return
+	}
+	gone := filepath.Join(env.base, "export", "cwdgone")
+	if os.Mkdir(gone, 0755) != nil || os.Chdir(gone) != nil {
+		return
+	}
+	os.Remove(gone)
+	ctx := context.Background()
+	fs := ufs.NewServer(ctx, "export") // relative
+	os.Chdir(old)
+	w.Case("C15 relative export root constructed while the working directory has vanished")
+	w.Eval()
+	w.Count("vanished_cwd_probes", 1)
+	sess := p9p.SFileSys(fs)
+	defer sess.Stop(nil)
+	if _, err := sess.Attach(ctx, 0, p9p.NOFID, "u", ""); err != nil {
+		return // refused: fine
+	}
+	if st, err := sess.Stat(ctx, 0); err == nil && st.Qid.Path == inodeOf("/") {
+		w.Violate("mismatch", "C15:host-root-exported", "a server constructed with a relative export root (working directory vanished) serves the host's / as its root", nil)
+		return
+	}
+	names := strings.Split(strings.TrimPrefix(filepath.Join(env.base, "outside", "SECRET"), "/"), "/")
+	if qs, err := sess.Walk(ctx, 0, 1, names...); err == nil && len(qs) == len(names) {
+		if _, _, err := sess.Open(ctx, 1, p9p.OREAD); err == nil {
+			buf := make([]byte, 256)
+			n, _ := sess.Read(ctx, 1, buf, 0)
+			if bytes.Contains(buf[:n], []byte(c15secret)) {
+				w.Violate("mismatch", "C15:read-of-outside-object", "a server constructed with a relative export root (working directory vanished) lets a client read a host file by its absolute path", nil)
+			}
+		}
+	}
+	w.NT("vanished-cwd")
 }
